@@ -329,7 +329,7 @@ pub fn run(tier: Tier) -> i32 {
     }
     let scenarios: Vec<(&str, &str, u64)> = match tier {
         Tier::Quick => vec![("two", "2", 60), ("two-short", "3", 60), ("handoff", "2", 60), ("two-nosuspend", "3", 60)],
-        Tier::Thorough => vec![("two", "4", 600), ("two-short", "none", 600), ("handoff", "4", 600), ("two-nosuspend", "none", 600), ("three", "1", 600)],
+        Tier::Thorough => vec![("two", "6", 900), ("two-short", "none", 900), ("handoff", "6", 900), ("two-nosuspend", "6", 900), ("three", "1", 900)],
     };
     let mut schedules = 0u64;
     let mut sync_ops = 0u64;
